@@ -25,7 +25,7 @@ def mutate(events):
 
 def schedules(c):
     n = 40 if c.tier == "quick" else 1200
-    scheds = gb.restart_catalogue() + gb.catalogue()[:8]
+    scheds = gb.restart_catalogue() + gb.catalogue()
     scheds += gb.simulate(c, n, ["A", "B"], 2, 12, 14, True)
     return scheds
 
